@@ -20,7 +20,7 @@ package ro
 //@   note the subscribe function of a shared observable; the connector is user code and may panic: no lock is left held and no subscriber stays counted then
 //@   type shareEnv
 //@   props C11 C13 C07
-//@   binds mu getOrCreateSubject refCount config source
+//@   binds mu getOrCreateSubject refCount config source subject
 //@   calls AddUnsubscribable NewObserverWithContext NewSubscriber ShareWithConfig$1$3$1 StoreInt32 SubscribeWithContext
 //@   params subscriberCtx destination
 //@   panicforks
@@ -39,7 +39,7 @@ package ro
 //@   note reset(currentSubject, currentSourceSubscription): called with mu held by its callers
 //@   type shareEnv
 //@   props C11 C14
-//@   binds currentSubject currentSourceSubscription subject
+//@   binds currentSubject currentSourceSubscription subject refCount
 //@   calls Unsubscribe
 //@   params currentSubject currentSourceSubscription
 //@   holding mu
@@ -74,7 +74,7 @@ package ro
 //@   note the teardown of one subscriber
 //@   type shareEnv
 //@   props C11 C13 C03 C14
-//@   binds sub mu refCount config hasBeenResetOnError hasBeenResetOnCompletion currentSourceSubscription
+//@   binds sub mu currentSubject subject refCount config hasBeenResetOnError hasBeenResetOnCompletion reset currentSourceSubscription
 //@   calls LoadInt32 Lock Unlock Unsubscribe fn:reset
 //@   params -
 //@   inline ShareWithConfig$1$2
@@ -97,6 +97,7 @@ package ro
 
 //@ func (*connectableObservableImpl).ConnectWithContext
 //@   props C11 C13
+//@   binds s
 //@   inline (*connectableObservableImpl).disconnected
 //@   track source.* subscription.* SubscribeWithContext().* callfn.config.Connector
 //@   ensures [connects-once|C11] count(source.SubscribeWithContext) <= 1
@@ -128,6 +129,8 @@ package ro
 //@   note the teardown added to a connection: the end of that very connection is handled under the mutex (a later connection is not touched)
 //@   props C11 C13
 //@   binds s connection
+//@   calls Lock Unlock disconnected
+//@   params -
 //@   inline (*connectableObservableImpl).disconnected
 //@   track callfn.config.Connector
 //@   ensures [handles-the-end-of-its-own-connection-under-the-lock|C11,C13] count(lock.mu) == 1
